@@ -74,3 +74,76 @@ func vTimeOf(data []prioKey[int, int], k int) int64 {
 	}
 	return 0
 }
+
+// VH_cache_Deep: a recency heap of four levels laid out so that the tail slot is
+// older than the whole left subtree (ranks assigned right subtree first), keys
+// symbolic; a Get or Remove of a chosen entry then forces the moved tail element
+// to rise more than one level; afterwards a second Get and the complete eviction
+// order are checked.
+func VH_cache_Deep() {
+	m := vCase("m")
+	// heap index order: root, then the right subtree in BFS order, then the left subtree
+	var order []int
+	order = append(order, 0)
+	for _, top := range []int{2, 1} {
+		level := []int{top}
+		for len(level) > 0 {
+			var next []int
+			for _, i := range level {
+				if i < m {
+					order = append(order, i)
+					next = append(next, 2*i+1, 2*i+2)
+				}
+			}
+			level = next
+		}
+	}
+	data := make([]prioKey[int, int], m)
+	for rank, idx := range order {
+		data[idx] = prioKey[int, int]{lastAccess: int64(rank + 1), key: vOrd("k"), value: 10 + idx}
+	}
+	for i := range data {
+		for j := 0; j < i; j++ {
+			vAssume(data[j].key != data[i].key)
+		}
+		if i > 0 {
+			vAssert(data[(i-1)/2].lastAccess < data[i].lastAccess, "harness layout is a valid heap")
+		}
+	}
+	h := &vCacheH{ref: &vRefLRU{limit: m}}
+	for _, idx := range order {
+		h.ref.es = append(h.ref.es, vEnt{data[idx].key, data[idx].value})
+	}
+	lru := &lruStore[int, int]{present: make(map[int]int), clock: int64(m + 1)}
+	for i, d := range data {
+		lru.present[d.key] = i
+	}
+	lru.access = heapqNewWithData(data)
+	lru.access.Update(func(v prioKey[int, int], pos int) { lru.present[v.key] = pos })
+	h.c = &Cache[int, int]{store: lru, limit: int64(m), size: int64(m), count: m,
+		sizeOf:  func(int) int64 { return 1 },
+		onEvict: func(k, v int) { h.log = append(h.log, vEnt{k, v}) }}
+	// first use: Get or Remove of the entry at a chosen heap offset
+	target := data[vChoice("offset", m)].key
+	if vCase("op") == 1 {
+		wv, _ := h.ref.get(target)
+		gv, ok := h.c.Get(target)
+		vAssert(ok && gv == wv, "Get of a present key in a deep recency heap")
+	} else {
+		h.ref.remove(target)
+		vAssert(h.c.Remove(target), "Remove of a present key in a deep recency heap")
+	}
+	h.check("deep step")
+	// overflow the cache until everything that was present has been evicted
+	for len(h.log) < m {
+		k := vOrd("fresh")
+		vAssume(h.ref.absent(k))
+		want := h.ref.put(k, 1)
+		vAssert(h.c.Put(k, 1) == want, "Put of a fresh key")
+		if len(h.log)%3 == 0 {
+			h.check("deep drain")
+		}
+	}
+	h.check("deep drain end")
+	vCover("deep-done")
+}
